@@ -481,7 +481,11 @@ def _sign_xr():
     return (f"/-- {header(path, qual, src, fn)}: sign multiplier for REAL data from the column maximum `mx` and minimum `mn` -/\n"
             f"def signRuleXarray (mx mn : Int) : Int :=\n  {expr}\n"
             "/-- the same rule on IEEE doubles (executed by the driver) -/\n"
-            f"def signRuleXarrayF (mx mn : Float) : Float :=\n  {_to_float(expr)}\n")
+            f"def signRuleXarrayF (mx mn : Float) : Float :=\n  {_to_float(expr)}\n"
+            "/-- COMPLEX data: the refinement is skipped (source guard `not np.iscomplexobj(data)`); the rule compares the moduli of the\n"
+            "(lexicographic) column maximum and minimum -/\n"
+            f"def signRuleXarrayComplexF (mx mn : Float) : Float :=\n  {_to_float(base)}\n"
+            f"def signRuleXarrayHasRealRefinement : Bool := {'true' if ref else 'false'}\n")
 
 
 # ------------------------------------------------------------------------------------- guards on fitted models
